@@ -135,6 +135,12 @@ def validate(ck, agg, nn):
                 agg.add("R06.9", fi, "each message is sent under a frame id of its own (a header constructed for it, or the caller's)", isinstance(href, Ref) and href.ident in (fresh | given),
                         "%s transmits with the header object the frame buffer happened to hold: the frame id (and `reserved`) of the previous or of a received frame is re-used, "
                         "so a receiver cannot tell the fragments of two consecutive messages apart" % label, wr[0].node)
+                # R05.9: whatever header the caller hands in, the frame leaves stamped with this node's own address as its origin - the
+                # destination's application and the NETWORK_ACK of the last hop go by it
+                hd, own = wr[0].data[3].get("header") or {}, wr[0].data[3].get("own_addr")
+                okf = own is not None and hd.get("from_node") is not None and norm(hd["from_node"]).key() == norm(own).key()
+                agg.add("R05.9", fi, "a message leaves stamped with the sender's own address as origin, whatever the caller's header held", okf,
+                        "%s transmits with from_node = %r while the node's address is %r" % (label, hd.get("from_node"), own), wr[0].node)
     nn.model.opaque.pop(f_write.qualname, None)
     return n + nsend
 
